@@ -25,6 +25,8 @@ KINDS = {
     'plain': (0, 'plain'), 'plainperr': (0, 'plainperr'),
     'v1ok': (1, 'ok'),      # coroutine method of a class based view that keeps per-call state on self across its gate
     'w1ok': (1, 'ok'),      # a plain function that RETURNS a coroutine (a coroutine function behind an ordinary decorator)
+    'ibroken': (0, 'internal'),     # a view whose constructor raises: the element fails before its method body (-32603)
+    'plaintype': (0, 'plaintype'),  # a plain function whose body raises TypeError after it has left its mark
 }
 
 
@@ -57,9 +59,11 @@ def build(cfg, mon):
 
     def make(kind):
         gates, ending = KINDS[kind]
-        if ending in ('plain', 'plainperr'):
+        if ending in ('plain', 'plainperr', 'plaintype'):
             def plain(i):
                 mon.events.append((i, 'run'))
+                if ending == 'plaintype':
+                    raise TypeError('%s %d' % (MARK, i))
                 if ending == 'plainperr':
                     raise JsonRpcError(5000 + i, 'perr %d' % i, data={'elem': i})
                 return {'elem': i, 'kind': kind}
@@ -135,6 +139,14 @@ def build(cfg, mon):
             await gate(i, 'eh')
             return error
         handlers = {None: [eh]}
+        if cfg['eh'] == 'stamp':
+            # the handler writes into the error object it is given and returns it
+            async def stamp(request, context, error):
+                i = request.params[0] if request.params else -1
+                await gate(i, 'eh')
+                error.data = {'stamped': i}
+                return error
+            handlers = {None: [stamp]}
         if cfg['eh'] == 'gate+code':
             # plus a handler registered for ONE code (method not found) that rewrites the error: it must touch only the elements
             # that failed with that code, however the other elements' handlers interleave
@@ -143,8 +155,16 @@ def build(cfg, mon):
             handlers[-32601] = [rewrite]
     d = pjrpc.server.AsyncDispatcher(middlewares=middlewares, error_handlers=handlers, concurrent_batch=cfg['concurrent'])
     for kind in KINDS:
-        if kind != 'v1ok':
+        if kind not in ('v1ok', 'ibroken'):
             d.add(make(kind), name=kind)
+
+    class BrokenView(pjrpc.server.ViewMixin):
+        def __init__(self):
+            raise RuntimeError('%s view constructor' % MARK)
+
+        def ibroken(self, i):
+            return i
+    d.registry.view(BrokenView)
 
     class StatefulView(pjrpc.server.ViewMixin):
         async def v1ok(self, i):
@@ -172,16 +192,22 @@ def expected(cfg):
     out = []
     runs = []
     for i, (kind, is_call) in enumerate(cfg['elems']):
-        if kind != 'unknown':
+        if kind not in ('unknown', 'ibroken'):
             runs.append(i)
         if not is_call:
             continue
         id = id_of(i)
         if kind == 'unknown':
-            out.append(dict(id=id, code=7404, message='rewritten', data={'was': -32601}) if cfg['eh'] == 'gate+code' else dict(id=id, code=-32601))
+            out.append(dict(id=id, code=7404, message='rewritten', data={'was': -32601}) if cfg['eh'] == 'gate+code' else
+                       (dict(id=id, code=-32601, data={'stamped': i}, stamped=True) if cfg['eh'] == 'stamp' else dict(id=id, code=-32601)))
+        elif cfg['eh'] == 'stamp' and KINDS[kind][1] not in ('ok', 'plain'):
+            code = {'perr': 5000 + i, 'plainperr': 5000 + i, 'internal': -32603}.get(KINDS[kind][1], -32000)
+            out.append(dict(id=id, code=code, data={'stamped': i}, stamped=True))
         else:
             ending = KINDS[kind][1]
-            if ending in ('ok', 'plain'):
+            if ending == 'internal':
+                out.append(dict(id=id, code=-32603))
+            elif ending in ('ok', 'plain'):
                 out.append(dict(id=id, result={'elem': i, 'kind': kind}))
             elif ending in ('perr', 'plainperr'):
                 out.append(dict(id=id, code=5000 + i, message='perr %d' % i, data={'elem': i}))
@@ -250,7 +276,7 @@ def check(cfg, choices, out, mon, unhandled, rec):
                     return viol('C10:response carries another element\'s result / an error', e, g)
             else:
                 er = g.get('error') or {}
-                if er.get('code') != e['code'] or ('message' in e and (er.get('message') != e['message'] or er.get('data') != e['data'])):
+                if er.get('code') != e['code'] or ('message' in e and (er.get('message') != e['message'] or er.get('data') != e['data'])) or (e.get('stamped') and er.get('data') != e['data']):
                     return viol('C10:response carries another element\'s error / a result', e, g)
     ran = sorted(i for i, w in mon.events if w == 'run')
     if ran != runs:
@@ -279,7 +305,7 @@ def check(cfg, choices, out, mon, unhandled, rec):
 
 def gen_cases(ctx):
     n_main = ctx.pick(3, 3)
-    main = ['g0ok', 'g1ok', 'g2ok', 'g1perr', 'g2boom', 'plain', 'unknown', 'v1ok', 'w1ok']
+    main = ['g0ok', 'g1ok', 'g2ok', 'g1perr', 'g2boom', 'plain', 'unknown', 'v1ok', 'w1ok', 'plaintype']
     alphabet = [(k, c) for k in main for c in (True, False)]
     for conc in (True, False):
         for n in range(1, n_main + 1):
@@ -304,14 +330,14 @@ def gen_cases(ctx):
                     for mw in ('none', 'before'):
                         yield dict(part='long', concurrent=conc, mw=mw, eh='none', elems=elems, order=order)
     # middleware / error handler stacks (<= 2 suspension points per element in total)
-    small = [('g0ok', True), ('g1ok', True), ('g0perr', True), ('g1perr', False), ('unknown', True), ('plainperr', True), ('g1boom', True)]
+    small = [('g0ok', True), ('g1ok', True), ('g0perr', True), ('g1perr', False), ('unknown', True), ('plainperr', True), ('g1boom', True), ('ibroken', True), ('plaintype', True)]
     for conc in (True, False):
         for mw, eh in (('before', 'none'), ('after', 'none'), ('both', 'none'), ('none', 'gate'), ('before', 'gate'), ('after', 'gate'), ('plainfn', 'none'),
-                       ('none', 'gate+code'), ('before', 'ctxvar')):
+                       ('none', 'gate+code'), ('before', 'ctxvar'), ('none', 'stamp')):
             for n in range(1, ctx.pick(2, 3) + 1):
                 for elems in itertools.product(small, repeat=n):
                     budget_ok = all(KINDS.get(k, (0,))[0] + {'none': 0, 'before': 1, 'after': 1, 'both': 2, 'plainfn': 1}[mw] +
-                                    (1 if eh in ('gate', 'gate+code') and (k == 'unknown' or KINDS[k][1] not in ('ok', 'plain')) else 0) <= 2
+                                    (1 if eh in ('gate', 'gate+code', 'stamp') and (k == 'unknown' or KINDS[k][1] not in ('ok', 'plain')) else 0) <= 2
                                     for k, _ in elems)
                     if budget_ok:
                         if eh == 'ctxvar':
